@@ -19,6 +19,19 @@ def setup(ctx):
 
 def cases(rng, tier, shard, nshards):
     while True:
+        if rng.random() < 0.08:
+            # segments with array- and JSON-valued tags (also under the origin tag) which get multiplied
+            version = rng.choice(["gfa1", "gfa2"])
+            names = ["a", "b", "c"]
+            lines = []
+            for n in names:
+                tg = rng.sample(["or:J:[\"s1\", \"s2\"]", "or:Z:s1,s2", "xj:J:{\"k\": [1, 2]}", "xb:B:c,1,2", "xh:H:0A1B", "xi:i:5",
+                                 "mp:B:C,1,14"], rng.randint(1, 3))
+                tg = [t for i, t in enumerate(tg) if t[:2] not in [u[:2] for u in tg[:i]]]
+                lines.append(("S\t%s\t*\tLN:i:9" % n if version == "gfa1" else "S\t%s\t9\t*" % n) + "\t" + "\t".join(tg))
+            lines.append("L\ta\t+\tb\t-\t3M" if version == "gfa1" else "E\t*\ta+\tb-\t6\t9$\t6\t9$\t3M")
+            yield {"k": "copies", "version": version, "lines": lines, "vlevel": rng.choice([1, 1, 2, 3]), "seed": rng.getrandbits(32)}
+            continue
         canonical = rng.random() < 0.7
         d = G.gen_doc(rng, canonical=canonical)
         lines = d.lines()
@@ -96,7 +109,62 @@ def edit_in_place(rng, line, fname):
     return None
 
 
+def run_copies(case, ctx):
+    """the copies which multiply() makes of a segment (it clones it) share no mutable value with the
+    original: origin tracking, array- and JSON-valued tags."""
+    rng = random.Random(case["seed"])
+    r = call(ctx, "Gfa(list)", gfapy.Gfa, case["lines"], vlevel=case["vlevel"], version=case["version"])
+    if not r.ok:
+        return
+    g = r.value
+    segs = [s for s in g.segments]
+    if not segs:
+        return
+    s0 = rng.choice(segs)
+    name = s0.name
+    kw = rng.choice([{}, {"track_origin": True}, {"track_origin": True, "origin_tag": "or"}, {"extended": True}])
+    before_names = set(g.segment_names)
+    m = call(ctx, "multiply", g.multiply, name, rng.choice([2, 3]), **kw)
+    if not m.ok:
+        return
+    copies = [g.segment(n) for n in set(g.segment_names) - before_names]
+    ctx.count("copies_made_by_multiply", len(copies))
+    family = [g.segment(name)] + copies
+    seen = {}
+    for x in family:
+        for f in fields_of(x):
+            try:
+                v = x.get(f)
+            except gfapy.Error:
+                continue
+            for pth, o in mutable_parts(v, f):
+                if id(o) in seen and seen[id(o)][0] is not x:
+                    ctx.violation("aliased/copy-made-by-multiply/%s/%s" % (x.get_datatype(f), type(o).__name__),
+                                  "multiply(%r, ..., %r): field %s of %r shares a %s with %r"
+                                  % (name, kw, f, x.name, type(o).__name__, seen[id(o)][0].name))
+                    return
+                seen[id(o)] = (x, f)
+    # edit a mutable tag value of one copy in place: the others keep their text
+    texts = {x.name: O.safe_str(x) for x in family}
+    for x in family:
+        for f in list(x.tagnames):
+            try:
+                lab = edit_in_place(rng, x, f)
+            except gfapy.Error:
+                lab = None
+            if lab:
+                for y in family:
+                    if y is not x and O.safe_str(y) != texts[y.name]:
+                        ctx.violation("edit-of-copy-affects-sibling/%s" % lab, "%s of %r edited (%s): %r became %r"
+                                      % (f, x.name, lab, texts[y.name], O.safe_str(y)))
+                        return
+                texts[x.name] = O.safe_str(x)
+    ctx.nontriv([case["lines"], name, sorted(kw)])
+
+
 def run(case, ctx):
+    if case.get("k") == "copies":
+        return run_copies(case, ctx)
     rng = random.Random(case["seed"])
     version = case["version"]
     if case["connected"]:
